@@ -774,11 +774,21 @@ fn c08_pipeline(ctx: &mut Ctx, records: &[Vec<u8>], alt: Option<&[Vec<u8>]>, k: 
     ctx.rep.evaluations += 1;
     let r = guard(|| {
         let mut c = CovComputer::new(inp.clone(), dir.clone(), k, bs, bc);
-        c.set_threads(threads);
-        c.set_norm(norm);
-        c.set_max_memory(mem);
-        if alt.is_some() {
-            c.set_kmer_path(altp.clone());
+        // both orders of the setter calls are used (by case parity)
+        if (threads + bs + records.len()) % 2 == 0 {
+            c.set_threads(threads);
+            c.set_norm(norm);
+            c.set_max_memory(mem);
+            if alt.is_some() {
+                c.set_kmer_path(altp.clone());
+            }
+        } else {
+            if alt.is_some() {
+                c.set_kmer_path(altp.clone());
+            }
+            c.set_max_memory(mem);
+            c.set_norm(norm);
+            c.set_threads(threads);
         }
         c.build_table().unwrap();
         c.compute_coverages();
